@@ -937,6 +937,34 @@ func (r *Run) readIndex(a Array, idx *Term, idxT types.Type) Value {
 }
 
 func (r *Run) strIndex(s Str, idx *Term, idxT types.Type) Value {
+	if !idx.Const && (s.IsConst || s.IsBytes) {
+		var cells []Value
+		if s.IsConst {
+			cells = make([]Value, len(s.C))
+			for i := 0; i < len(s.C); i++ {
+				cells[i] = mkBV(8, uint64(s.C[i]))
+			}
+		} else {
+			cells = s.Bytes
+		}
+		if len(cells) > 0 && len(cells) <= 512 {
+			w := idx.S.W
+			_, signed, _ := isInt(idxT)
+			var inb *Term
+			if signed {
+				inb = tAnd(tBVCmp("bvsge", idx, mkBV(w, 0)), tBVCmp("bvslt", idx, mkBV(w, uint64(len(cells)))))
+			} else {
+				inb = tBVCmp("bvult", idx, mkBV(w, uint64(len(cells))))
+			}
+			if w < 64 && !signed && len(cells) >= 1<<uint(w) {
+				inb = tTrue
+			}
+			if !r.branch(inb) {
+				panic(targetPanic{v: r.runtimeErr("index out of range"), msg: "index out of range"})
+			}
+			return iteChain(cells, idx)
+		}
+	}
 	if s.IsConst {
 		i := r.boundedIndex(idx, len(s.C), idxT, "string index")
 		return mkBV(8, uint64(s.C[i]))
